@@ -5,6 +5,21 @@ here = os.path.dirname(os.path.dirname(os.path.abspath(__file__)))
 tab = json.load(open(os.path.join(here, "tools", "manifest_table.json")))
 props = [json.loads(l)["id"] for l in open(os.path.join(here, "properties.jsonl"))]
 checks, na = [], []
+
+
+def driver_note(pid):
+    """LEVEL_NOTE string literal of the driver (parsed, not imported)"""
+    import ast
+    src = open(os.path.join(here, "harness", "drivers", pid + ".py")).read()
+    for node in ast.parse(src).body:
+        if isinstance(node, ast.Assign) and any(getattr(t, "id", None) == "LEVEL_NOTE" for t in node.targets):
+            try:
+                return ast.literal_eval(node.value)
+            except Exception:
+                break
+    return "Trusted: Coq kernel + vm_compute; torch/linear_operator numerics are compared with the proved model, not verified."
+
+
 for pid in props:
     row = tab["claimed"].get(pid)
     if row is None or not os.path.exists(os.path.join(here, "harness", "drivers", pid + ".py")) \
@@ -19,7 +34,7 @@ for pid in props:
         "replay_cmd_template": "./check %s --replay {path}" % pid,
         "engine": "coq-proof+correspondence",
         "level_claimed": {"category": "proof", "text": row["text"], "design_ref": row.get("design_ref", "DESIGN.md §8 " + pid)},
-        "level_note": row["note"],
+        "level_note": row.get("note") or driver_note(pid),
         "technique": row.get("technique", "Coq 8.16 theorems over a Gallina model + differential correspondence (vm_compute model vs implementation)"),
     })
 m = {
